@@ -51,4 +51,3 @@ func cmdReplay(args []string) int {
 	}
 	return 0
 }
-
